@@ -123,15 +123,6 @@ def build(form, tpl, shapes, sshape):
     return f"10 {':'.join(pre)}\n20 {body}\n"
 
 
-def dev_start(m, frame, argrefs, vals):
-    rec = argrefs[0]
-    if isinstance(rec, dict):
-        marks = {"hfore": 7, "hbck": 3, "fore": 5, "bck": 2, "hpth": 9, "hscl": 1}
-        for k, cell in rec.items():
-            for j in range(len(cell.data)):
-                cell.data[j] = marks.get(k, 0)
-
-
 def run_case(text, opts):
     """-> (decb events, b09 calls, pokes, octo, status/detail)"""
     script = R.Script()
@@ -146,7 +137,6 @@ def run_case(text, opts):
     procs = {k: v for k, v in R.library_procs().items() if k in R.PURE}
     procs.update(user)
     devices = R.make_devices(script)
-    devices["_ecb_start"] = dev_start
     m = I.Machine(procs, devices=devices, strict_init=False, horizon=5000)
     status = ("ok", "")
     try:
